@@ -10,7 +10,9 @@ package c12
 
 import (
 	"fmt"
+	"os"
 	"runtime"
+	"runtime/pprof"
 	"sync/atomic"
 	"testing"
 	"testing/synctest"
@@ -32,15 +34,18 @@ type workload struct {
 	reorder  bool
 	feedback bool
 	backlog  int // packets queued up front (pacing interceptor driven exactly at its rate)
+	resend   int // percent of outgoing packets that repeat a recently sent sequence number (retransmission without RTX)
 }
 
 var workloads = []workload{
-	{"in-order+feedback", 0, 0, false, true, 0},
-	{"in-order/no-feedback", 0, 0, false, false, 0},
-	{"loss5+feedback", 5, 0, false, true, 0},
-	{"loss5/no-feedback", 5, 0, false, false, 0},
-	{"dup+reorder+feedback", 2, 5, true, true, 0},
-	{"dup+reorder/no-feedback", 2, 5, true, false, 0},
+	{"in-order+feedback", 0, 0, false, true, 0, 0},
+	{"in-order/no-feedback", 0, 0, false, false, 0, 0},
+	{"loss5+feedback", 5, 0, false, true, 0, 0},
+	{"loss5/no-feedback", 5, 0, false, false, 0, 0},
+	{"dup+reorder+feedback", 2, 5, true, true, 0, 0},
+	{"dup+reorder/no-feedback", 2, 5, true, false, 0, 0},
+	{"resend10+feedback", 0, 0, false, true, 0, 10},
+	{"resend10/no-feedback", 0, 0, false, false, 0, 10},
 }
 
 // backlogWorkload keeps the pacing interceptor's queue non-empty for the whole run: the pacer
@@ -75,10 +80,13 @@ type heapPoint struct {
 }
 
 func measure() heapPoint {
-	runtime.GC()
-	runtime.GC()
 	var ms runtime.MemStats
-	runtime.ReadMemStats(&ms)
+	// not while the harness's own watchdog is holding a goroutine dump
+	vf.Quiesced(func() {
+		runtime.GC()
+		runtime.GC()
+		runtime.ReadMemStats(&ms)
+	})
 	return heapPoint{ms.HeapAlloc, ms.HeapObjects}
 }
 
@@ -108,6 +116,7 @@ type driver struct {
 	lseq    [2]uint16
 	rseq    [2]uint16
 	twcc    uint16
+	twccTotal int64
 	rtwcc   uint16
 	ts      uint32
 	held    []byte // a reordered packet waiting to be delivered
@@ -116,6 +125,8 @@ type driver struct {
 	step    int
 	rng     *vf.Rand
 	outGaps bool // the outgoing streams have occasional sequence discontinuities too
+	resend  int
+	burst   int // packet steps sent back to back before the driver sleeps as many virtual ms
 	single  bool // only one remote stream carries traffic (the jitter buffer interceptor owns ONE buffer)
 }
 
@@ -143,9 +154,15 @@ func (d *driver) write(st int) {
 	if d.outGaps && d.rng.Intn(200) == 0 {
 		d.lseq[st] += uint16(d.rng.Pick(1, 2, 65535)) // the sender skips a number / repeats one
 	}
-	h := rtp.Header{Version: 2, PayloadType: 96, SequenceNumber: d.lseq[st], Timestamp: d.ts, SSRC: uint32(1000 * (st + 1))}
+	seq := d.lseq[st]
+	if d.resend > 0 && d.rng.Intn(100) < d.resend {
+		d.lseq[st]-- // no new number: an earlier packet goes out again under its own number
+		seq -= uint16(d.rng.Range(1, 60))
+	}
+	h := rtp.Header{Version: 2, PayloadType: 96, SequenceNumber: seq, Timestamp: d.ts, SSRC: uint32(1000 * (st + 1))}
 	if st == 0 {
 		d.twcc++
+		d.twccTotal++
 		ext, _ := (&rtp.TransportCCExtension{TransportSequence: d.twcc}).Marshal()
 		_ = h.SetExtension(twccID, ext)
 	}
@@ -188,15 +205,20 @@ func (d *driver) incoming(st int, wl workload) {
 // feedback about the last n packets sent on the local streams, all received 1 ms apart
 func (d *driver) feedback(n int) {
 	var pkts []rtcp.Packet
+	// one arrival clock across reports, as a real receiver has: transport-wide number t arrived at
+	// t ms, so consecutive arrivals are 1 ms apart also from the last packet of one report to the
+	// first packet of the next
+	a0 := (d.twccTotal - int64(n) + 1) * 1000 // us
 	tw := &rtcp.TransportLayerCC{
 		Header:     rtcp.Header{Count: rtcp.FormatTCC, Type: rtcp.TypeTransportSpecificFeedback},
 		SenderSSRC: 9, MediaSSRC: 1000, BaseSequenceNumber: d.twcc - uint16(n) + 1, PacketStatusCount: uint16(n),
-		ReferenceTime: uint32(d.step/64) & 0xffffff, FbPktCount: uint8(d.step / 100),
+		ReferenceTime: uint32(a0/64000) & 0xffffff, FbPktCount: uint8(d.step / 100),
 		PacketChunks: []rtcp.PacketStatusChunk{&rtcp.RunLengthChunk{Type: rtcp.TypeTCCRunLengthChunk, PacketStatusSymbol: rtcp.TypeTCCPacketReceivedSmallDelta, RunLength: uint16(n)}},
 	}
 	for i := 0; i < n; i++ {
 		tw.RecvDeltas = append(tw.RecvDeltas, &rtcp.RecvDelta{Type: rtcp.TypeTCCPacketReceivedSmallDelta, Delta: 1000})
 	}
+	tw.RecvDeltas[0].Delta = a0 % 64000 / 250 * 250
 	l := 20 + 2 + n
 	if l%4 != 0 {
 		tw.Header.Padding = true
@@ -237,8 +259,8 @@ func (d *driver) runSteps(n int, wl workload) {
 		if wl.feedback && d.step%100 == 0 {
 			d.feedback(100)
 		}
-		if d.step%25 == 0 {
-			time.Sleep(25 * time.Millisecond)
+		if d.step%d.burst == 0 {
+			time.Sleep(time.Duration(d.burst) * time.Millisecond)
 		}
 	}
 	synctest.Wait()
@@ -279,6 +301,13 @@ func runSteady(c *vf.Case, kind zoo.Kind, wl workload) {
 		d := newDriver(c, b)
 		d.single = kind == zoo.JitterBuffer
 		d.outGaps = wl.loss > 0 || wl.dup > 0
+		d.resend = wl.resend
+		// paced like media (one packet step per virtual ms); the reordering workloads send in
+		// bursts of 25 instead
+		d.burst = 1
+		if wl.reorder {
+			d.burst = 25
+		}
 		if wl.backlog > 0 {
 			for i := 0; i < wl.backlog; i++ { // a standing, bounded backlog in front of the pacer
 				d.write(i % 2)
@@ -288,6 +317,13 @@ func runSteady(c *vf.Case, kind zoo.Kind, wl workload) {
 		for p := 0; p < 6; p++ {
 			d.runSteps(n, wl)
 			pts = append(pts, measure())
+		}
+		if f := os.Getenv("VERIF_C12_HEAPPROFILE"); f != "" {
+			// diagnosis of a growth: what holds the memory (go tool pprof -sample_index=inuse_space)
+			if w, err := os.Create(f); err == nil {
+				_ = pprof.Lookup("heap").WriteTo(w, 0)
+				_ = w.Close()
+			}
 		}
 		_ = b.I.Close()
 		synctest.Wait()
@@ -328,6 +364,9 @@ func fbClass(wl workload) string {
 	if wl.loss > 0 || wl.dup > 0 {
 		s += "/lossy"
 	}
+	if wl.resend > 0 {
+		s += "/resent-numbers"
+	}
 	return s
 }
 
@@ -344,7 +383,7 @@ type canaryFeed struct {
 }
 
 func runChurn(c *vf.Case, kind zoo.Kind) {
-	cycles := 500
+	cycles := 2000
 	if c.Tier == "thorough" {
 		cycles = 10_000
 	}
@@ -401,6 +440,19 @@ func runChurn(c *vf.Case, kind zoo.Kind) {
 			}
 			time.Sleep(2 * time.Second) // time based eviction (500 ms histories) has run
 			synctest.Wait()
+			// the canaries of this block are freed one GC after their finalizers ran: let the
+			// finalizer goroutine catch up so that they do not count as retained heap
+			for i, last := 0, int64(-1); i < 20; i++ {
+				runtime.GC()
+				for k := 0; k < 200; k++ {
+					runtime.Gosched()
+				}
+				if n := finW.Load() + finR.Load(); n == last {
+					break
+				} else {
+					last = n
+				}
+			}
 			pts = append(pts, measure())
 		}
 		for i := 0; i < 3; i++ {
@@ -430,7 +482,7 @@ func runChurn(c *vf.Case, kind zoo.Kind) {
 	perCycle := float64(growth) / float64(2*cycles)
 	monotone := pts[1].Objects < pts[2].Objects && pts[2].Objects < pts[3].Objects
 	c.Max("max_churn_growth_bytes_per_cycle", int64(max(0, perCycle)))
-	if growth > 128<<10 && perCycle > 200 && monotone {
+	if growth > 64<<10 && perCycle > 24 && monotone {
 		c.Violation(fmt.Sprintf("churn-growth/%s", kind),
 			"interceptor %s: heap retained after forced GC grows with every bind/traffic/unbind cycle of a new SSRC: HeapAlloc KiB after each block of %d cycles %v, objects %d -> %d -> %d; %.0f bytes per cycle",
 			desc, cycles, series, pts[1].Objects, pts[2].Objects, pts[3].Objects, perCycle)
